@@ -83,18 +83,19 @@ func (h *Hist) Height(id int) int {
 
 // Obs is what was observed for one delivery.
 type Obs struct {
-	Blk       int    `json:"blk"`
-	InMain    bool   `json:"in_main"`
-	Orphan    bool   `json:"orphan"`
-	Err       bool   `json:"err"`
-	ErrText   string `json:"err_text,omitempty"`
-	Main      []int  `json:"main"` // tip first
-	LihBefore uint32 `json:"lih_before"`
-	Lih       uint32 `json:"lih"`
-	Detached  []int  `json:"detached"` // heights of blocks disconnected during the delivery
-	Connected []int  `json:"connected"`
-	Events    []int  `json:"events"`  // +h connected, -h disconnected, in order
-	Orphans   []int  `json:"orphans"` // ids in the orphan pool after the delivery (IsKnownOrphan)
+	Blk       int      `json:"blk"`
+	InMain    bool     `json:"in_main"`
+	Orphan    bool     `json:"orphan"`
+	Err       bool     `json:"err"`
+	ErrText   string   `json:"err_text,omitempty"`
+	Main      []int    `json:"main"` // tip first
+	LihBefore uint32   `json:"lih_before"`
+	Lih       uint32   `json:"lih"`
+	Detached  []int    `json:"detached"` // heights of blocks disconnected during the delivery
+	Connected []int    `json:"connected"`
+	Events    []int    `json:"events"`    // +h connected, -h disconnected, in order
+	LihTrace  []uint32 `json:"lih_trace"` // LIH read at each event (connect: before the DPoS state processes the block; disconnect: after the rollback)
+	Orphans   []int    `json:"orphans"`   // ids in the orphan pool after the delivery (IsKnownOrphan)
 }
 
 // FailedSwitch reports whether the delivery ended in an error after a
@@ -133,6 +134,7 @@ type runner struct {
 	det   []int
 	con   []int
 	evs   []int
+	ltr   []uint32
 	st    *state.State
 	inRun bool
 }
@@ -164,6 +166,7 @@ func onEvent(e *events.Event) {
 		id := r.idOf[b.Hash()]
 		r.con = append(r.con, int(b.Height))
 		r.evs = append(r.evs, int(b.Height))
+		r.ltr = append(r.ltr, r.st.LastIrreversibleHeight)
 		if r.h.Irr {
 			// the DPoS state processes this block next: it must read the mode left
 			// by the parent block and the resume condition of this block
@@ -179,6 +182,7 @@ func onEvent(e *events.Event) {
 		b := e.Data.(*types.Block)
 		r.det = append(r.det, int(b.Height))
 		r.evs = append(r.evs, -int(b.Height))
+		r.ltr = append(r.ltr, r.st.LastIrreversibleHeight)
 	case events.ETBlockProcessed:
 		if r.h.Irr && r.f.Chain.BestChain != nil {
 			d, _ := r.bits(r.idOf[*r.f.Chain.BestChain.Hash])
@@ -261,7 +265,7 @@ func Run(h *Hist) ([]Obs, []int64, error) {
 			r.setMode(d)
 			r.st.DPOSWorkHeight = 0
 		}
-		r.det, r.con, r.evs = nil, nil, nil
+		r.det, r.con, r.evs, r.ltr = nil, nil, nil, nil
 		r.inRun = true
 		var in, orphan bool
 		var perr error
@@ -282,7 +286,7 @@ func Run(h *Hist) ([]Obs, []int64, error) {
 			o.Main = append(o.Main, r.idOf[mc[i]])
 		}
 		o.Lih = r.st.GetLastIrreversibleHeight()
-		o.Detached, o.Connected, o.Events = r.det, r.con, r.evs
+		o.Detached, o.Connected, o.Events, o.LihTrace = r.det, r.con, r.evs, r.ltr
 		for _, b := range h.Blocks {
 			hh := r.blk[b.ID].Hash()
 			if f.Chain.IsKnownOrphan(&hh) {
